@@ -66,7 +66,8 @@ int __CPROVER_uninterpreted_t_b64dec(int x);
 bool __CPROVER_uninterpreted_t_b64dec_empty(int x);             /* base64 text that decodes to nothing (e.g. "=") */
 int __CPROVER_uninterpreted_t_hex(int x);
 int __CPROVER_uninterpreted_t_xor(int x, int y);
-int __CPROVER_uninterpreted_t_toInt(int x);
+int __CPROVER_uninterpreted_t_toInt(int x);                     /* the integer a decimal text denotes (meaningful when t_toInt_ok) */
+bool __CPROVER_uninterpreted_t_toInt_ok(int x);                  /* the bytes are a decimal integer in int range (QByteArray::toInt's ok flag) */
 int __CPROVER_uninterpreted_t_hashlen(int alg);
 int __CPROVER_uninterpreted_t_alen(int atom);                    /* byte length of an opaque chunk */
 bool __CPROVER_uninterpreted_t_startsWith(int a, int b);
@@ -82,7 +83,10 @@ static inline BA T_B64DEC(BA x) { int i = ba_id(x); return (x.n == 0 || __CPROVE
 static inline BA T_HEX(BA x) { return x.n == 0 ? ba_empty() : ba_atom(__CPROVER_uninterpreted_t_hex(ba_id(x))); }
 /* XOR is commutative: the operands are ordered by id before the constructor is applied */
 static inline BA T_XOR(BA x, BA y) { int i = ba_id(x), j = ba_id(y); return ba_atom(i <= j ? __CPROVER_uninterpreted_t_xor(i, j) : __CPROVER_uninterpreted_t_xor(j, i)); }
-static inline int T_TOINT(BA x) { return x.n == 0 ? 0 : __CPROVER_uninterpreted_t_toInt(ba_id(x)); }
+/* QByteArray::toInt(bool *ok = nullptr, int base = 10): ok and the value are functions of the bytes; the empty string is not a number;
+   a failed conversion returns 0 (Qt documentation) */
+static inline bool T_TOINT_OK(BA x) { return x.n != 0 && __CPROVER_uninterpreted_t_toInt_ok(ba_id(x)); }
+static inline int T_TOINT(BA x) { return T_TOINT_OK(x) ? __CPROVER_uninterpreted_t_toInt(ba_id(x)) : 0; }
 static inline bool T_STARTSWITH(BA a, BA b) { if (b.n == 0 || ba_eq(a, b)) return true; if (a.n == 0) return false; return __CPROVER_uninterpreted_t_startsWith(ba_id(a), ba_id(b)); }
 /* QByteArray::replace(char before, const char *after) on a value of at most one atom: a concrete byte is replaced or kept; an opaque
    chunk becomes the chunk "with every `before` replaced by `after`" (a function of the three; it may or may not differ from the chunk) */
@@ -115,6 +119,8 @@ static inline void BA_toBase64(BA *r, const BA *x) { *r = T_B64(*x); }
 static inline void BA_fromBase64(BA *r, const BA *x) { *r = T_B64DEC(*x); }
 static inline void BA_toHex(BA *r, const BA *x) { *r = T_HEX(*x); }
 static inline int BA_toInt(const BA *x) { return T_TOINT(*x); }
+static inline int BA_toInt_ok(const BA *x, bool *ok) { if (ok) *ok = T_TOINT_OK(*x); return T_TOINT(*x); }
+static inline int BA_toInt_ok_base(const BA *x, bool *ok, int base) { MODEL_LIMIT(base == 10, "QByteArray::toInt with a base other than 10"); return BA_toInt_ok(x, ok); }
 static inline void BA_replace_char(BA *x, char before, const BA *after) { *x = T_REPLACE(*x, before, *after); }
 static inline void QS_ctor(QS *r) { *r = ba_as_qs(ba_empty()); }
 static inline void QS_assign(QS *d, const QS *s) { *d = *s; }
